@@ -869,7 +869,7 @@ func (b *Builder) planReplaceLeaders(best, next stepPlan) stepPlan {
 		for _, leaderBeforeRemove := range b.currentPeers.IDs() {
 			if leaderBeforeRemove != next.demote.GetStoreId() &&
 				leaderBeforeRemove != next.remove.GetStoreId() &&
-				b.allowLeader(b.currentPeers[leaderBeforeRemove], false) {
+				b.allowLeaderAfter(b.currentPeers[leaderBeforeRemove], leaderBeforeAdd) {
 				// leaderBeforeRemove does not select nodes to be demote or removed.
 				next.leaderBeforeRemove = leaderBeforeRemove
 				best = b.comparePlan(best, next)
@@ -878,7 +878,7 @@ func (b *Builder) planReplaceLeaders(best, next stepPlan) stepPlan {
 		if next.promote != nil &&
 			next.promote.GetStoreId() != next.demote.GetStoreId() &&
 			next.promote.GetStoreId() != next.remove.GetStoreId() &&
-			b.allowLeader(next.promote, false) {
+			b.allowLeaderAfter(next.promote, leaderBeforeAdd) {
 			// leaderBeforeRemove does not select nodes to be demote or removed.
 			next.leaderBeforeRemove = next.promote.GetStoreId()
 			best = b.comparePlan(best, next)
@@ -886,13 +886,24 @@ func (b *Builder) planReplaceLeaders(best, next stepPlan) stepPlan {
 		if next.add != nil &&
 			next.add.GetStoreId() != next.demote.GetStoreId() &&
 			next.add.GetStoreId() != next.remove.GetStoreId() &&
-			b.allowLeader(next.add, false) {
+			b.allowLeaderAfter(next.add, leaderBeforeAdd) {
 			// leaderBeforeRemove does not select nodes to be demote or removed.
 			next.leaderBeforeRemove = next.add.GetStoreId()
 			best = b.comparePlan(best, next)
 		}
 	}
 	return best
+}
+
+// allowLeaderAfter is allowLeader for the moment at which the leader is on store `leader`
+// (the plan's leaderBeforeAdd): the store that leads now is exempt from the store checks only
+// as long as it keeps the leadership. Once the plan has moved the leader away, handing it back
+// is a transfer like any other and the store has to accept leaders.
+func (b *Builder) allowLeaderAfter(peer *metapb.Peer, leader uint64) bool {
+	current := b.currentLeaderStoreID
+	b.currentLeaderStoreID = leader
+	defer func() { b.currentLeaderStoreID = current }()
+	return b.allowLeader(peer, false)
 }
 
 func (b *Builder) planPromotePeer() stepPlan {
